@@ -379,6 +379,58 @@ def eventsOf (c : Option Nat) : Nat → List Stmt → List Ev
   | _, [] => []
   | i, s :: rest => stmtEvAt c i s ++ eventsOf c (i + 1) rest
 
+/-! ### round 5c: the body ends the raw `*sql.Tx` itself
+
+A body can reach the transaction's raw `*sql.Tx` (its session is a `txSession`; other ORMs are handed it through
+`NewSessionFromTx`) and call `Commit()` / `Rollback()` on it.  database/sql marks the Tx done BEFORE it calls the
+driver, whatever the driver answers; from then on go-zero's own `tx.Commit()` / `tx.Rollback()` in the deferred
+closure is refused with the bare `sql.ErrTxDone` WITHOUT reaching the driver.  So the driver still sees exactly one
+end of the transaction (the body's), and `Transact` returns `sql.ErrTxDone` (body returned nil: the result of
+`tx.Commit()`), or the body's error / panic with `rollback failed: %w` of `sql.ErrTxDone` — never nil. -/
+
+structure RawEnd where
+  commit : Bool     -- `tx.Commit()` on the raw Tx (else `tx.Rollback()`)
+  ok     : Bool     -- the driver's answer to it
+  deriving DecidableEq, Repr, Inhabited
+
+/-- a body that, after its statements (if no statement error made it return early), may end the raw Tx itself
+and then ends as `base.fin` says -/
+structure BodyX where
+  base : Body
+  raw  : Option RawEnd := none
+  deriving DecidableEq, Repr, Inhabited
+
+def rawEv (r : RawEnd) : Ev := if r.commit then .commit r.ok else .rollback r.ok
+
+/-- the body gets as far as its raw end: a transaction was opened and no statement error was returned before -/
+def BodyX.reaches (f : Faults) (b : BodyX) : Bool :=
+  b.raw.isSome && f.opens && (runStmts b.base.cancelAt b.base.deadline 0 b.base.stmts).2.isNone
+
+/-- what go-zero's deferred closure returns once the Tx is already done: `tx.Commit()` = sql.ErrTxDone (body
+returned nil), else the body's error / panic with the refused Rollback wrapped -/
+def retAfterRawEnd : BodyOut → Err
+  | .nil => Err.of (.commit .txDone)
+  | .err e => { is := [.rollback .txDone], says := e.is ++ e.says }
+  | _ => { is := [.rollback .txDone], says := [.panic] }
+
+/-- `transactOnConn` over the extended body domain -/
+def transactOnConnX (f : Faults) (b : BodyX) : Result :=
+  match b.raw with
+  | none => transactOnConn f b.base
+  | some r =>
+    if b.reaches f then
+      { log := badPrefix f.badConn (.begin true :: ((runBody b.base).1 ++ [rawEv r])), runs := 1,
+        body := (runBody b.base).2, ret := some (retAfterRawEnd (runBody b.base).2) }
+    else transactOnConn f b.base
+
+/-- `transact` and `TransactCtx` over the extended domain: the same wrappers around `transactOnConnX` -/
+def transactFnX (connOk : Bool) (f : Faults) (b : BodyX) : Result :=
+  if !connOk then { log := [], runs := 0, body := .notRun, ret := some (Err.of .conn) }
+  else transactOnConnX f b
+
+def transactCtxX (env : Env) (f : Faults) (b : BodyX) : Result :=
+  brkDo env.ctxDone env.ctxDead env.brkAllow (acceptable env.userAccept) (transactFnX env.connOk f b)
+
 /-! ### round 5: a nil function given to `WithAcceptable` (finding; fixes/not-applied/C14-withacceptable-nil.patch) -/
 
 /-- a verdict function whose evaluation may call a nil function value: `none` = that call (a nil-call panic) -/
